@@ -507,6 +507,15 @@ func negativeFieldCasesLocal() []*Case {
 			"type In struct{ ZIPCODE int; Addr Address }\ntype Address struct{ Zipcode int }\ntype Out struct{ ZipCode int }\n", iface("matchIgnoreCase", "autoMap Addr")),
 		mk("ambiguous_loose_two_automap", "two autoMap fields are case-insensitive candidates and no exact one exists",
 			"type In struct{ A1 Address; A2 Address2 }\ntype Address struct{ Zipcode int }\ntype Address2 struct{ ZIPCODE int }\ntype Out struct{ ZipCode int }\n", iface("matchIgnoreCase", "autoMap A1", "autoMap A2")),
+		mk("map_twice", "two goverter:map settings for one target field", base, iface("map A A", "map N.X A")),
+		mk("map_twice_func", "goverter:map with a function and a plain goverter:map for one target field", base+"func Up(i int) int { return i + 1 }\n", iface("map A A | Up", "map N.X A")),
+		mk("map_then_ignore", "goverter:map and goverter:ignore for one target field", base, iface("map A A", "ignore A")),
+		mk("ignore_then_map", "goverter:ignore and goverter:map for one target field", base, iface("ignore A", "map N.X A")),
+		mk("map_path_with_sourceless_func", "a source path given to a function that takes no source", base+"func NoArg() int { return 1 }\n", iface("map Bogus.Path A | NoArg")),
+		mk("map_hidden_under_ignoreunexported", "explicit map onto an unexported field of another package under ignoreUnexported",
+			"type In struct{ A int; B string }\ntype Out struct{ A int; B string }\n", "// goverter:converter\n// goverter:ignoreUnexported\ntype Converter interface {\n\t// goverter:map B hidden\n\tConvert(source In) Out2\n}\ntype Out2 struct{ A int; hidden string }\n"),
+		mk("delegate_with_field_settings", "field settings on a method that delegates to an extend function of the same signature",
+			"type In struct{ A int; B string }\ntype Out struct{ A int; B string }\nfunc Ext(i In) Out { return Out{} }\n", "// goverter:converter\n// goverter:extend Ext\ntype Converter interface {\n\t// goverter:ignore B\n\tConvert(source In) Out\n}\n"),
 		mk("overlap_automap", "autoMap on the pointer variant while the struct variant is what gets used",
 			"type In struct{ A int; H Hold }\ntype Hold struct{ B int }\ntype Out struct{ A int; B int }\n", "// goverter:converter\n// goverter:ignoreMissing\ntype Converter interface {\n\t// goverter:autoMap H\n\tConvertPtr(source *In) *Out\n\tConvertList(source []In) []Out\n}\n"),
 		mk("overlap_matchignorecase", "matchIgnoreCase on the pointer variant while the struct variant is what gets used",
